@@ -165,17 +165,21 @@ func (c *Ctx) RuleErrZero(fns []*ssa.Function) {
 			if !ok {
 				continue
 			}
-			errv := ret.Results[len(ret.Results)-1]
+			if b == fn.Recover && !defersRecover(fn) {
+				continue // go/ssa's landing block for a recovered panic: nothing this function defers can recover
+			}
+			results := ReturnValues(ret)
+			errv := results[len(results)-1]
 			if isNilConst(errv) {
 				continue
 			}
 			// pass-through of a callee tuple: all results are extracts of the same call
-			if passThrough(ret) {
+			if passThrough(results) {
 				c.add("discharged", "S-ERRZERO", fn, ret.Pos(), "pass-through of callee results")
 				continue
 			}
 			ok2 := true
-			for _, r := range ret.Results[:len(ret.Results)-1] {
+			for _, r := range results[:len(results)-1] {
 				if !isZeroValue(r) {
 					// a value that is only non-zero on the nil-error path? check phi of extracts: conservative
 					ok2 = false
@@ -184,15 +188,104 @@ func (c *Ctx) RuleErrZero(fns []*ssa.Function) {
 			if ok2 {
 				c.add("discharged", "S-ERRZERO", fn, ret.Pos(), "zero value with error")
 			} else {
-				c.add("violated", "S-ERRZERO", fn, ret.Pos(), fmt.Sprintf("non-zero value %s returned with possibly non-nil error %s", ret.Results[0], errv))
+				c.add("violated", "S-ERRZERO", fn, ret.Pos(), fmt.Sprintf("non-zero value %s returned with possibly non-nil error %s", results[0], errv))
 			}
 		}
 	}
 }
 
-func passThrough(ret *ssa.Return) bool {
+// ReturnValues gives the operands of a return with go/ssa's defer spill undone: in a function with a defer the
+// builder stores every result into a result cell, runs the defers and returns the reloaded cells; where the cell is
+// not captured by a closure (no deferred function can change it) the reload is the value stored last in that block.
+func ReturnValues(ret *ssa.Return) []ssa.Value {
+	out := make([]ssa.Value, len(ret.Results))
+	copy(out, ret.Results)
+	blk := ret.Block()
+	for i, r := range out {
+		ld, ok := r.(*ssa.UnOp)
+		if !ok || ld.Op != token.MUL || ld.Block() != blk {
+			continue
+		}
+		cell, ok := ld.X.(*ssa.Alloc)
+		if !ok {
+			continue
+		}
+		captured := false
+		for _, u := range *cell.Referrers() {
+			switch u.(type) {
+			case *ssa.Store, *ssa.UnOp, *ssa.DebugRef:
+			default:
+				captured = true
+			}
+			if st, ok := u.(*ssa.Store); ok && st.Val == ssa.Value(cell) {
+				captured = true
+			}
+		}
+		if captured {
+			continue
+		}
+		var last ssa.Value
+		sawDefers := false
+		for _, in := range blk.Instrs {
+			if in == ssa.Instruction(ld) {
+				break
+			}
+			switch x := in.(type) {
+			case *ssa.Store:
+				if x.Addr == ssa.Value(cell) {
+					last = x.Val
+				}
+			case *ssa.RunDefers:
+				sawDefers = true
+			}
+		}
+		if last != nil && sawDefers {
+			out[i] = last
+		}
+	}
+	return out
+}
+
+// defersRecover: some deferred function of fn (a closure or a function of the module) calls recover().
+func defersRecover(fn *ssa.Function) bool {
+	for _, b := range fn.Blocks {
+		for _, in := range b.Instrs {
+			d, ok := in.(*ssa.Defer)
+			if !ok {
+				continue
+			}
+			var callee *ssa.Function
+			switch v := d.Call.Value.(type) {
+			case *ssa.MakeClosure:
+				callee, _ = v.Fn.(*ssa.Function)
+			case *ssa.Function:
+				callee = v
+			case *ssa.Builtin:
+				if v.Name() == "recover" {
+					return true
+				}
+				continue
+			}
+			if callee == nil {
+				return true // dynamic: unknown
+			}
+			for _, cb := range callee.Blocks {
+				for _, cin := range cb.Instrs {
+					if c, ok := cin.(*ssa.Call); ok {
+						if bi, ok := c.Call.Value.(*ssa.Builtin); ok && bi.Name() == "recover" {
+							return true
+						}
+					}
+				}
+			}
+		}
+	}
+	return false
+}
+
+func passThrough(results []ssa.Value) bool {
 	var tup ssa.Value
-	for i, r := range ret.Results {
+	for i, r := range results {
 		e, ok := r.(*ssa.Extract)
 		if !ok || e.Index != i {
 			return false
@@ -663,6 +756,21 @@ func (c *Ctx) typedErrors(rule string, fn *ssa.Function, errType string, seen ma
 				return
 			}
 			c.typedErrors(rule, callee, errType, seen)
+		case *ssa.Call:
+			// single error result of a callee: a constructor helper of the module is checked by this rule in turn
+			callee := c.StaticCallee(&x.Call)
+			switch {
+			case callee != nil && inRepo(callee):
+				c.typedErrors(rule, callee, errType, seen)
+			case callee != nil:
+				n++
+				bad++
+				c.addc("violated", rule, fn, pos, "error origin", "returns the untyped error built by "+callee.String()+" instead of the package's typed "+errType, "")
+			default:
+				n++
+				bad++
+				c.addc("undecided", rule, fn, pos, "error origin", "error produced by a dynamic callee", "")
+			}
 		case *ssa.Phi:
 			for _, e := range x.Edges {
 				check(e, pos, depth+1)
